@@ -9,7 +9,7 @@ package elastic
 // one request: bound to a context with the configured data timeout (cancel always released), GET of exactly the
 // given URL, body closed; success only if the body decoded to a JSON object (a nil map is refused)
 //@ func (*elasticClient).Get
-//@   props C10
+//@   props C10 C08
 //@   observe context.WithTimeout, http.NewRequestWithContext, Do, Close, json.NewDecoder, Decode, cancel
 //@   entry row reqfail: [call context.WithTimeout(ctx, c.dataTimeout) as (c2, cf) ; call http.NewRequestWithContext(c2, "GET", url, _) as (rq, e) ; call cancel()]
 //@                         when e != nil && ret1 == e -> exit
@@ -27,11 +27,11 @@ package elastic
 
 // URLs: proto://host/ and proto://host/_aliases
 //@ func (*elasticClient).GetInfo
-//@   props C10
+//@   props C10 C08
 //@   observe fmt.Sprintf, Get
 //@   entry row info: [call fmt.Sprintf("%s://%s/", bind_a) as (u) ; call Get(c, ctx, u) as (d, e)] when len(a) == 2 && astype(a[0], string) == c.proto && astype(a[1], string) == host && ret0 == d && ret1 == e -> exit
 //@ func (*elasticClient).GetIndexes
-//@   props C10
+//@   props C10 C08
 //@   observe fmt.Sprintf, Get
 //@   entry row aliases: [call fmt.Sprintf("%s://%s/_aliases", bind_a) as (u) ; call Get(c, ctx, u) as (d, e)] when len(a) == 2 && astype(a[0], string) == c.proto && astype(a[1], string) == host && ret0 == d && ret1 == e -> exit
 
@@ -51,11 +51,11 @@ package elastic
 // (so no connection ever goes to a host outside the target set), one connection per host, no keep-alives; the
 // per-request timeout is the configured data timeout (default first, then the options in order, nothing afterwards)
 //@ func WithDataTimeout$1
-//@   props C10
+//@   props C10 C08
 //@   modifies s.elastic.dataTimeout
 //@   ensures s.elastic.dataTimeout == timeout
 //@ func NewScanner
-//@   props C02 C10
+//@   props C02 C10 C08
 //@   observe o
 //@   entry row init:  [] when s.proto == proto && s.elastic.proto == proto && s.elastic.client.Timeout == 0 && isptr(s.elastic.client.Transport, http.Transport) && fresh(asptr(s.elastic.client.Transport, http.Transport))
 //@                       && asptr(s.elastic.client.Transport, http.Transport).Proxy == nil && asptr(s.elastic.client.Transport, http.Transport).DialContext == nil
@@ -69,3 +69,7 @@ package elastic
 //@   props C14
 //@   observe json.Marshal
 //@   entry row marshal: [call json.Marshal(bind_x) as (b, e)] when ret0 == b && ret1 == e -> exit
+
+// plain-text form of a record: printing never panics, whatever the scanned host put into the record (C10 C08)
+//@ func (*ScanResult).String
+//@   props C10 C08
